@@ -282,12 +282,8 @@ func (p *Prog) Func(rel, name string) *ssa.Function {
 	var fn *ssa.Function
 	if i := strings.IndexByte(name, '.'); i >= 0 {
 		tn, mn := name[:i], name[i+1:]
-		obj := sp.Pkg.Scope().Lookup(tn)
-		if obj == nil {
-			return nil
-		}
-		named, ok := obj.Type().(*types.Named)
-		if !ok {
+		named := p.Named(rel, tn)
+		if named == nil {
 			return nil
 		}
 		for _, T := range []types.Type{named, types.NewPointer(named)} {
@@ -310,6 +306,9 @@ func (p *Prog) Func(rel, name string) *ssa.Function {
 		}
 	} else {
 		fn = sp.Func(name)
+	}
+	if fn == nil {
+		fn = p.funcBySignature(rel, name)
 	}
 	if fn == nil || anon == "" {
 		return fn
@@ -338,7 +337,7 @@ func (p *Prog) Named(rel, name string) *types.Named {
 	}
 	obj := sp.Pkg.Scope().Lookup(name)
 	if obj == nil {
-		return nil
+		return p.namedByShape(rel, name)
 	}
 	n, _ := obj.Type().(*types.Named)
 	return n
@@ -372,7 +371,7 @@ func (p *Prog) Field(rel, typ, name string, fallbackType ...string) *types.Var {
 			return hit
 		}
 	}
-	return nil
+	return p.fieldByFrozenType(rel, typ, name, st, n)
 }
 
 // Const evaluates a package-level constant to int64.
@@ -383,7 +382,7 @@ func (p *Prog) Const(rel, name string) (int64, bool) {
 	}
 	c, ok := sp.Pkg.Scope().Lookup(name).(*types.Const)
 	if !ok {
-		return 0, false
+		return p.constByValue(rel, name)
 	}
 	return constInt64(c.Val())
 }
